@@ -65,8 +65,10 @@ CUSTOM_RULES_NAMES = {'custom': 'config/my.rules', 'custom-dir': 'rules/househol
 MY_RULES = '# hand-written\n[Rent]\nmatch: contains("RENT")\ncategory: Housing\nsubcategory: Rent\n'
 
 
-def settings_text(sources=True, mkey=None, vkey=False, outdir=None, html=None, extra=''):
+def settings_text(sources=True, mkey=None, vkey=False, outdir=None, html=None, extra='', desc_cleaning=False):
     t = 'year: 2025\ntitle: "Budget"\n'
+    if desc_cleaning:      # a setting removed long ago: `up` refuses to run and must not touch anything
+        t += 'description_cleaning:\n  - "\\\\s+#\\\\d+$"\n  - "^POS "\n'
     if sources:
         t += ('data_sources:\n  - name: Bank\n    file: data/bank.csv\n'
               '    format: "{date:%Y-%m-%d},{description},{amount}"\n')
@@ -87,6 +89,11 @@ def settings_text(sources=True, mkey=None, vkey=False, outdir=None, html=None, e
     return t + extra
 
 
+# the budget folder's own name reaches glob / format / expanduser-style APIs through abspath(): it is part of the input
+DIRNAMES = ['budget', 'budget [2025]', 'my budget (shared)', 'b*d?et', '{year} plan {0}', '$HOME ~bud%get', 'b\u00fcdget-\u00e9',
+            "o'brien \"q\" #1"]
+
+
 def gen_budget(rnd, force=None):
     """a budget directory description; `force` pins some features (directed cases)"""
     f = dict(force or {})
@@ -96,6 +103,7 @@ def gen_budget(rnd, force=None):
             f[key] = rnd.choice(choices)
         return f[key]
     layout = pick('layout', ['old', 'old', 'old', 'new', 'new', 'new', 'none'])
+    pick('dirname', ['budget'] * 6 + DIRNAMES[1:])
     root = {'old': '', 'new': 'tally/', 'none': None}[layout]
     files, dirs = {}, []
     if pick('notes', [False, True]):
@@ -112,7 +120,8 @@ def gen_budget(rnd, force=None):
                                                       'custom-dir', 'custom-txt', 'custom-missing']),
             vkey=pick('vkey', [False, True]), outdir=pick('outdir', [None, None, 'output', 'reports']),
             html=pick('html', [None, None, 'report.html']),
-            extra=pick('settings_tail', ['', '', '# trailing comment without newline']))
+            extra=pick('settings_tail', ['', '', '# trailing comment without newline']),
+            desc_cleaning=pick('desc_cleaning', [False] * 9 + [True]))
     if f.get('mkey') in CUSTOM_RULES_NAMES and f.get('mkey') != 'custom-missing' and st != 'absent':
         files[root + CUSTOM_RULES_NAMES[f['mkey']]] = MY_RULES
     rv = pick('rules', [False, False, False, True, True, True, 'transforms', 'syntaxerr', 'empty', 'comments'])
@@ -220,7 +229,7 @@ def cmd_entry(c):
         elif inv == 'dot-in-config':
             arg, cwd = '.', cfg
         elif inv in ('parent-rel', 'parent-rel/'):
-            arg, cwd = 'budget/' + cfg + ('/' if inv.endswith('/') else ''), '..'
+            arg, cwd = '{N}/' + cfg + ('/' if inv.endswith('/') else ''), '..'
         elif inv in ('env', 'env/'):
             env = {'TALLY_CONFIG': '{B}/' + cfg + ('/' if inv.endswith('/') else '')}
         if arg is not None:
@@ -338,6 +347,25 @@ def directed_cases():
                              'views': False, 'existing_out': None, 'out_obstacle': ob, 'outdir': outdir, 'html': None, 'strays': 1},
                             [up(True, 'parent-rel'), up(False), {'k': 'discover', 'args': []}]
                             if outdir is None else [up(False, 'abs/')]))
+    # ---- the budget folder's own name (glob / format / shell metacharacters) must not change what is kept ----
+    full = {'layout': 'old', 'settings': 'full', 'data': 'rows', 'mkey': 'rules', 'rules': True, 'csv': None, 'views': True,
+            'vkey': True, 'gitignore': True, 'strays': 1, 'out_obstacle': None, 'desc_cleaning': False}
+    for i, dn in enumerate(DIRNAMES[1:]):
+        lay = 'old' if i % 2 == 0 else 'new'
+        out.append((dict(full, layout=lay, dirname=dn),
+                    [{'k': 'init', 'target': None}, {'k': 'up', 'migrate': False, 'embedded': False, 'fmt': 'html', 'out': None},
+                     {'k': 'init', 'target': '.', 'spell': 'abs/'} if lay == 'old' else {'k': 'discover', 'args': []}]))
+    out.append((dict(full, dirname='budget [2025]', mkey=None, rules=False, csv='rules', bak=False),
+                [{'k': 'init', 'target': 'new [2025]'}, {'k': 'up', 'migrate': True, 'embedded': True, 'fmt': 'html', 'out': None,
+                                                        'inv': 'parent-rel/', 'cfgrel': 'config'}]))
+    # ---- a removed setting (description_cleaning) makes `up` refuse: with or without --migrate nothing may be rewritten ----
+    for lay in ('old', 'new'):
+        upm = lambda m, fmt='html': {'k': 'up', 'migrate': m, 'embedded': True, 'fmt': fmt, 'out': None}
+        for mk in ('rules', 'custom'):
+            out.append((dict(full, layout=lay, mkey=mk, desc_cleaning=True),
+                        [upm(True, 'summary'), upm(False), {'k': 'explain', 'args': ['Netflix']}, upm(True)]))
+        out.append((dict(full, layout=lay, mkey=None, rules=False, csv='rules', bak=False, desc_cleaning=True),
+                    [upm(True), {'k': 'init', 'target': None}]))
     # ---- init keeps every pre-existing file byte-identical: .gitignore of every style, READMEs, stray files ----
     for layout in ('old', 'new'):
         for gv in (True, 'own-style', 'repo', 'partial', 'tally', 'no-newline', 'empty'):
@@ -385,12 +413,12 @@ def gen_cases(seed, n_random, exhaustive=False):
     cases = []
     for force, cmds in directed_cases() + (exhaustive_small() if exhaustive else []):
         b = gen_budget(rnd, force)
-        cases.append({'files': b['files'], 'dirs': b['dirs'], 'links': b.get('links', {}), 'feat': b['feat'], 'specs': cmds})
+        cases.append({'files': b['files'], 'dirs': b['dirs'], 'links': b.get('links', {}), 'dirname': b['feat'].get('dirname'), 'feat': b['feat'], 'specs': cmds})
     for _ in range(n_random):
         b = gen_budget(rnd)
         root = {'old': '', 'new': 'tally/', 'none': None}[b['feat']['layout']]
         k = rnd.choice([1, 2, 2, 3, 3, 4])
-        cases.append({'files': b['files'], 'dirs': b['dirs'], 'links': b.get('links', {}), 'feat': b['feat'],
+        cases.append({'files': b['files'], 'dirs': b['dirs'], 'links': b.get('links', {}), 'dirname': b['feat'].get('dirname'), 'feat': b['feat'],
                       'specs': [gen_cmd(rnd, root) for _ in range(k)]})
     for c in cases:
         c['cmds'] = [cmd_entry(s) for s in c['specs']]
@@ -400,7 +428,7 @@ def gen_cases(seed, n_random, exhaustive=False):
 
 def run_cases_impl(cases, keep=False, work=WORKDIR):
     payload = {'work': work, 'jobs': 4, 'keep': keep,
-               'cases': [{'files': c['files'], 'dirs': c['dirs'], 'links': c.get('links', {}), 'cmds': c['cmds'],
+               'cases': [{'files': c['files'], 'dirs': c['dirs'], 'links': c.get('links', {}), 'dirname': c.get('dirname'), 'cmds': c['cmds'],
                           'extra_roots': c.get('extra_roots', [])}
                          for c in cases]}
     return run_impl(IMPL, payload, timeout=3000)['results']
@@ -409,6 +437,19 @@ def run_cases_impl(cases, keep=False, work=WORKDIR):
 # ======================= the property, restated over implementation observations only ======================
 def find_root(dirs):
     return '' if 'config' in dirs else ('tally/' if 'tally/config' in dirs else None)
+
+
+def designated_root(spec, dirs):
+    """the budget a command works on: the parent of the explicitly given config directory (argument or TALLY_CONFIG,
+    however spelled) when there is one, else what find_config_dir detects.  Returns (explicit?, root or None)."""
+    if spec.get('inv') and spec.get('cfgrel'):
+        cfg = spec['cfgrel']
+        if cfg in dirs:
+            return True, cfg[:-len('config')]
+        if spec['inv'].startswith('env'):
+            return False, find_root(dirs)        # TALLY_CONFIG that is not a directory is ignored
+        return True, None                        # explicit argument that does not exist: the command refuses
+    return False, find_root(dirs)
 
 
 def init_root(spec, dirs):
@@ -434,7 +475,7 @@ def write_sets(spec, step):
         S['append'].add(root + 'config/settings.yaml')
     k = spec['k']
     if k == 'up':
-        root = find_root(dirs)
+        root = designated_root(spec, dirs)[1]
         if root is None:
             return S
         facts = step['facts'].get(root + 'config/settings.yaml')
@@ -450,7 +491,9 @@ def write_sets(spec, step):
             S['report'].add(pref + name)
             if not spec['embedded']:
                 S['report'] |= {pref + s for s in SIBLINGS}
-        if spec['migrate'] and facts:
+        # --migrate migrates only a budget on the legacy format: no merchants_file in settings and the CSV present
+        if spec['migrate'] and facts and facts.get('sources') and not facts.get('merchants_file') and \
+                root + 'config/merchant_categories.csv' in files:
             migration(root)
     elif k == 'init':
         root = init_root(spec, dirs)
@@ -478,9 +521,10 @@ def direct_oracle(spec, step):
 
     def sig(what, path):
         base = os.path.basename(path) if path else ''
-        if what == 'overwrites' and base == 'merchant_categories.csv.bak':
+        # inside a CSV -> .rules migration that the command was entitled to perform
+        if what == 'overwrites' and base == 'merchant_categories.csv.bak' and path in S['create']:
             return f'C20/{label}-overwrites-existing-bak'
-        if what == 'overwrites' and base == 'merchants.rules':
+        if what == 'overwrites' and base == 'merchants.rules' and path in S['create']:
             return f'C20/{label}-overwrites-existing-merchants-rules'
         return f'C20/{label}-{what}:{base}'
     for kind, p, q in step['ops']:
@@ -569,13 +613,15 @@ Fixpoint failing (i : nat) (l : list _) : list (nat * nat) :=
 '''
 
 
-def coq_cmd(spec):
+def coq_cmd(spec, dirs=None):
     k = spec['k']
     if k == 'up':
         out = 'None' if not spec['out'] else f'(Some ({cq(spec["out"][0])}, {cq(spec["out"][1])}))'
         fm = {'html': 'FHtml', 'json': 'FJson', 'markdown': 'FMarkdown', 'summary': 'FSummary'}[spec['fmt']]
         b = lambda x: 'true' if x else 'false'
-        return f'(Up {b(spec["migrate"])} {b(spec["embedded"])} {fm} {out})'
+        expl, root = designated_root(spec, dirs if dirs is not None else [spec.get('cfgrel')])
+        cfg = f'(Some {cq(spec["cfgrel"][:-len("config")])})' if expl else 'None'
+        return f'(Up {cfg} {b(spec["migrate"])} {b(spec["embedded"])} {fm} {out})'
     if k == 'inspect':
         return f'(Inspect {cq(spec["file"])})'
     if k == 'init':
@@ -634,7 +680,7 @@ def coq_case(spec, step, starters, it):
          f'starter_settings := {it.ref(starters["settings"])}; starter_merchants := {it.ref(starters["merchants"])}; '
          f'starter_views := {it.ref(starters["views"])}; starter_gitignore := {it.ref(starters["gitignore"])} |}}')
     ops = '; '.join(f'({OPK.get(k, 9)}, {cq(p)}, {cq(q)})' for k, p, q in step['ops'])
-    return f'({o}, {coq_cmd(spec)}, {coq_state(step["pre"], it)}, [{ops}], {coq_state(step["post"], it)})'
+    return f'({o}, {coq_cmd(spec, step["pre"]["dirs"])}, {coq_state(step["pre"], it)}, [{ops}], {coq_state(step["post"], it)})'
 
 
 def model_check(items, starters, name='C20/cases'):
@@ -675,22 +721,22 @@ def fails_with(case, signature):
 
 def shrink(case, step_index, signature, budget=18):
     """delta-debug the command sequence, then the files of the budget"""
-    cur = {'files': dict(case['files']), 'dirs': list(case['dirs']), 'specs': list(case['specs'][:step_index + 1])}
+    cur = {'files': dict(case['files']), 'dirs': list(case['dirs']), 'links': dict(case.get('links') or {}),
+           'dirname': case.get('dirname'), 'specs': list(case['specs'][:step_index + 1])}
 
     def norm(c):
-        c.setdefault('links', dict(case.get('links') or {}))
         c['cmds'] = [cmd_entry(s) for s in c['specs']]
         c['extra_roots'] = sorted({s['target'] + '/' for s in c['specs'] if s['k'] == 'init' and s.get('target') not in (None, '.')})
         return c
     trials = 0
-    alone = norm({'files': cur['files'], 'dirs': cur['dirs'], 'specs': [cur['specs'][-1]]})
+    alone = norm(dict(cur, specs=[cur['specs'][-1]]))
     trials += 1
     if len(cur['specs']) > 1 and fails_with(alone, signature):
         cur = alone
     else:
         i = 0
         while i < len(cur['specs']) - 1 and trials < budget:
-            cand = norm({'files': cur['files'], 'dirs': cur['dirs'], 'specs': cur['specs'][:i] + cur['specs'][i + 1:]})
+            cand = norm(dict(cur, specs=cur['specs'][:i] + cur['specs'][i + 1:]))
             trials += 1
             if fails_with(cand, signature):
                 cur = cand
@@ -698,22 +744,25 @@ def shrink(case, step_index, signature, budget=18):
                 i += 1
     last = cur['specs'][-1]
     if last['k'] == 'up' and (not last['embedded'] or last['fmt'] != 'html' or last['out']):
-        cand = norm({'files': cur['files'], 'dirs': cur['dirs'],
-                     'specs': cur['specs'][:-1] + [dict(last, embedded=True, fmt='html', out=None)]})
+        cand = norm(dict(cur, specs=cur['specs'][:-1] + [dict(last, embedded=True, fmt='html', out=None)]))
+        trials += 1
+        if fails_with(cand, signature):
+            cur = cand
+    if cur.get('dirname') not in (None, 'budget'):
+        cand = norm(dict(cur, dirname='budget'))
         trials += 1
         if fails_with(cand, signature):
             cur = cand
     if cur['specs'][-1].get('inv'):
-        cand = norm({'files': cur['files'], 'dirs': cur['dirs'],
-                     'specs': cur['specs'][:-1] + [{k: v for k, v in cur['specs'][-1].items() if k not in ('inv', 'cfgrel')}]})
+        cand = norm(dict(cur, specs=cur['specs'][:-1] + [{k: v for k, v in cur['specs'][-1].items() if k not in ('inv', 'cfgrel')}]))
         trials += 1
         if fails_with(cand, signature):
             cur = cand
     for p in sorted(cur['files']):
         if trials >= budget:
             break
-        cand = norm({'files': {k: v for k, v in cur['files'].items() if k != p},
-                     'dirs': sorted(set(cur['dirs']) | {os.path.dirname(p)} - {''}), 'specs': cur['specs']})
+        cand = norm(dict(cur, files={k: v for k, v in cur['files'].items() if k != p},
+                         dirs=sorted(set(cur['dirs']) | {os.path.dirname(p)} - {''})))
         trials += 1
         if fails_with(cand, signature):
             cur = cand
@@ -784,7 +833,7 @@ def main(tier):
         broken.append({'kind': 'hygiene', 'detail': res['hygiene']})
 
     # ---- dynamic tie ----
-    n_random = 60 if tier == 'quick' else 600
+    n_random = 45 if tier == 'quick' else 600
     shutil.rmtree(os.path.join(WORK, 'C20', 'run'), ignore_errors=True)
     starters = calibrate_starters()
     cases = gen_cases(run.seed, n_random, exhaustive=(tier == 'thorough'))
@@ -834,7 +883,7 @@ def main(tier):
         occ = viol[s]
         ci, si, d = min(occ, key=lambda x: (x[1], len(cases[x[0]]['files'])))
         small, trials = shrink(cases[ci], si, s, budget=18 if tier == 'quick' else 60)
-        run.violation('write', {'kind': 'counterexample', 'case': {k: small.get(k) for k in ('files', 'dirs', 'links', 'specs', 'cmds')},
+        run.violation('write', {'kind': 'counterexample', 'case': {k: small.get(k) for k in ('files', 'dirs', 'links', 'dirname', 'specs', 'cmds')},
                                 'failing_step': len(small['specs']) - 1, 'detail': d, 'n_occurrences': len(occ),
                                 'all_signatures_of_this_command': {x: len(viol[x]) for x in sigs},
                                 'expected': 'C20: only report files in the output location are written; user files keep their bytes '
